@@ -443,6 +443,31 @@ def confirm_k2(ctx, recs):
         r.pop("_k2_impl", None)
 
 
+LOW_CASES = ("infinity", "generator-without-order", "x-out-of-range", "y-negative", "off-curve", "valid")
+
+
+def low_level_case(ci, tg):
+    """the low-level constructor itself (anchored: ecdsa.py Public_key.__init__, documented `:raises InvalidPointError`): the point
+    at infinity, a generator without order, coordinates out of range, an off-curve point -> (observed, expected)"""
+    from ecdsa import ellipticcurve as EC
+    from ecdsa.ecdsa import Public_key, InvalidPointError
+    gx, gy = ci.G
+    Gj, cf = ci.cv.generator, ci.cv.curve
+    th = {"infinity": lambda: Public_key(Gj, EC.INFINITY),
+          "generator-without-order": lambda: Public_key(EC.PointJacobi(cf, gx, gy, 1), EC.PointJacobi(cf, gx, gy, 1, ci.n)),
+          "x-out-of-range": lambda: Public_key(Gj, EC.PointJacobi(cf, gx + ci.p, gy, 1, ci.n)),
+          "y-negative": lambda: Public_key(Gj, EC.PointJacobi(cf, gx, gy - ci.p, 1, ci.n)),
+          "off-curve": lambda: Public_key(Gj, EC.PointJacobi(cf, gx, (gy + 1) % ci.p, 1, ci.n)),
+          "valid": lambda: Public_key(Gj, EC.PointJacobi(cf, gx, gy, 1, ci.n)) and "ok"}[tg]
+    try:
+        got = th()
+    except InvalidPointError:
+        got = "InvalidPointError"
+    except Exception as e:  # noqa
+        got = "exception " + common.errname(e)
+    return got, ("ok" if tg == "valid" else "InvalidPointError")
+
+
 def search(ctx):
     from ecdsa import VerifyingKey, ellipticcurve as EC
     from ecdsa.keys import MalformedPointError
@@ -472,6 +497,12 @@ def search(ctx):
             if got != exp:
                 ctx.violation({"input": {"entry": "VerifyingKey.from_public_point", "curve": ci.name, "x": x, "y": y},
                                "observed": got, "expected": exp})
+        for tg in LOW_CASES:
+            n_eval += 1
+            ctx.hist("search.object", "Public_key/" + tg)
+            got, want = low_level_case(ci, tg)
+            if got != want:
+                ctx.violation({"input": {"entry": "ecdsa.Public_key", "curve": ci.name, "case": tg}, "observed": got, "expected": want})
     # 1b. point objects of every kind, validation on and off
     obs = {}
     for ci in cis:
@@ -560,6 +591,12 @@ def replay(rec):
     cis = [K.CurveInfo(c) for c in C.curves]
     if not isinstance(i, dict) or "entry" not in i:
         K.cannot_replay("record without input.entry")
+    if i["entry"] == "ecdsa.Public_key":
+        ci = next((c for c in cis if c.name == i.get("curve")), None)
+        if ci is None or i.get("case") not in LOW_CASES:
+            K.cannot_replay("unknown curve / case in an ecdsa.Public_key record")
+        got, want = low_level_case(ci, i["case"])
+        return got != want
     if i["entry"] == "VerifyingKey.from_string":
         ci = curve_of_desc(i["curve"])
         if ci is None:
